@@ -86,6 +86,9 @@ func dispatch(what, tier string, seed uint64, replay string) int {
 		}
 		return lc.run(a, tier, seed)
 	}
+	if what == "C04" {
+		return c04Check(a, tier, seed, replay)
+	}
 	if what == "C11" {
 		return c11Check(a, tier, seed, replay)
 	}
